@@ -186,6 +186,8 @@ def run(ctx):
     e1, d1, s1, v1 = scalar_cases(ctx, n1)
     e2, d2, s2, v2 = module_cases(ctx, n2)
     viol = v1 + v2
+    import regress
+    e2 += regress.run("C14", viol)
     for v in viol:
         v.setdefault("finding_class", None)
     return {"evaluations": e1 + e2, "distinct_nontrivial": d1 + d2,
